@@ -90,6 +90,8 @@ class _Rewrite(ast.NodeTransformer):
 
 
 def _deep_equal(a, b):
+    if hasattr(a, "to_tuples") and hasattr(b, "to_tuples"):   # pandas IntervalIndex
+        return list(a.to_tuples()) == list(b.to_tuples())
     if isinstance(a, np.ndarray) or isinstance(b, np.ndarray):
         a, b = np.asarray(a), np.asarray(b)
         return a.shape == b.shape and bool(np.all((a == b) | ((a != a) & (b != b))))
